@@ -6,8 +6,10 @@ import (
 	"fmt"
 	"regexp"
 	"strconv"
+	"strings"
 	"time"
 
+	"github.com/robfig/soy"
 	"github.com/robfig/soy/data"
 )
 
@@ -21,6 +23,9 @@ type ExprCase struct {
 	File   string `json:"file"`     // full template source
 	Obs    Obs    `json:"obs"`      // what the real code did
 	Exp    string `json:"expected"` // what the spec expects (filled after validation)
+	// GlobText, when set, is a globals FILE: the real code gets its globals
+	// from soy.ParseGlobals(GlobText); Env.Glob holds the values it denotes.
+	GlobText string `json:"globText,omitempty"`
 }
 
 // Obs is the observable outcome of the render.
@@ -37,7 +42,16 @@ type Obs struct {
 func RunExprCase(c *ExprCase, explicitPrint bool) {
 	vars := ExprVars(c.E)
 	c.File = ExprTemplate(c.Src, vars, explicitPrint)
-	comp, err, _ := Compile([]File{{"t.soy", c.File}}, ToDataMap(c.Env.Glob))
+	globals := ToDataMap(c.Env.Glob)
+	if c.GlobText != "" {
+		g, gerr := soy.ParseGlobals(strings.NewReader(c.GlobText))
+		if gerr != nil {
+			c.Obs = Obs{Err: true, CompileErr: "ParseGlobals: " + gerr.Error()}
+			return
+		}
+		globals = g
+	}
+	comp, err, _ := Compile([]File{{"t.soy", c.File}}, globals)
 	if err != nil {
 		c.Obs = Obs{Err: true, CompileErr: err.Error()}
 		return
